@@ -14,24 +14,26 @@ import (
 )
 
 type Verifier struct {
-	repo         string
-	overlayFiles map[string]string // overlay path -> replacement file (handed on to go test -overlay by the bounded checks)
-	prog         *ssa.Program
-	pkgs         []*packages.Package
-	ssaPkgs      map[string]*ssa.Package
-	cs           *Contracts
-	fnByKey      map[string]*ssa.Function // pkgpath::key
-	keyOfFn      map[*ssa.Function]string
-	strConsts    map[string]string // literal -> SMT constant name
-	strName      map[string]string // SMT constant name -> literal
-	strOrder     []string
-	ghostFuncs   map[string]func(ev *Ev, args []Val) Val
-	overlay      map[string][]byte
-	timeout      int
-	tier         string
-	seed         int
-	keepQueries  string
-	loadWhole    bool
+	repo          string
+	replayPkg     string
+	replayImports map[string]string
+	overlayFiles  map[string]string // overlay path -> replacement file (handed on to go test -overlay by the bounded checks)
+	prog          *ssa.Program
+	pkgs          []*packages.Package
+	ssaPkgs       map[string]*ssa.Package
+	cs            *Contracts
+	fnByKey       map[string]*ssa.Function // pkgpath::key
+	keyOfFn       map[*ssa.Function]string
+	strConsts     map[string]string // literal -> SMT constant name
+	strName       map[string]string // SMT constant name -> literal
+	strOrder      []string
+	ghostFuncs    map[string]func(ev *Ev, args []Val) Val
+	overlay       map[string][]byte
+	timeout       int
+	tier          string
+	seed          int
+	keepQueries   string
+	loadWhole     bool
 }
 
 func (V *Verifier) readFile(path string) ([]byte, error) {
